@@ -1,5 +1,8 @@
 import Kio.Props.C01
 import Kio.Props.C02
+import Kio.Proofs.Reencode
+import Kio.Proofs.ReencodeCex
+import Kio.Generated.All
 /-!
 # C05 — decoding is lossless: re-encoding reproduces the original bytes
 
@@ -53,6 +56,27 @@ theorem idempotent_canonical (env : Env) (ht : env.time = TimeCfg.repaired) (s :
   refine ⟨rfl, ?_⟩
   have := C01.roundtrip env ht s hwf v hw b he0 []
   simpa using this
+
+/-- **whatever the decoder returns is accepted by the encoder** — for *arbitrary* input bytes
+    (up to 2^33 bytes), on every coherent class whose nullable tagged primitives default to None
+    and whose tagged defaults are `==` to themselves (no NaN).  The re-encoding is at most three
+    times as long as what was consumed (a known tag's size prefix is ignored by the reader and
+    re-encoded minimally by the writer, so a factor 1 bound is false: `ReencodeCex`). -/
+theorem reencodable (env : Env) (ht : env.time = TimeCfg.repaired) (s : Schema) (hwf : s.wf env = true)
+    (hnd : s.taggedNullDefaults = true) (hdr : s.taggedDefaultsRefl env = true)
+    (bs : Bytes) (hlen : 3 * bs.length < 2 ^ 35) (v : Value) (rest : Bytes)
+    (h : dec env s bs = .ok (v, rest)) :
+    ∃ b', enc env s v = .ok b' ∧ b'.length + 3 * rest.length ≤ 3 * bs.length := by
+  obtain ⟨hr, hw⟩ := Kio.wf_buildable env s hwf
+  unfold dec at h; rw [hr] at h
+  unfold enc; rw [hw]
+  exact Kio.Schema.reencodable' env ht C01.float_exact s hwf hnd hdr bs hlen v rest h
+
+set_option maxRecDepth 100000 in
+/-- the two side conditions hold on every shipped class (regenerated) -/
+theorem shipped_reencodable_conditions :
+    allOk (fun s => s.taggedNullDefaults && s.taggedDefaultsRefl (Env.current Generated.errorCodes))
+      Generated.allClasses = true := by decide +kernel
 
 /-- the µs of a decoded timestamp -/
 def usOf : Except Err Value → Option Int
